@@ -65,3 +65,28 @@ Section AfterResponse.
   Definition xtcp_deliver (sender receiver : list vlayer) (chunks : list bytes) : bytes :=
     stack_rd enc_rd comp_rd receiver (List.concat (stack_wr enc_wr comp_wr sender chunks)).
 End AfterResponse.
+
+(* ---------- (5) the handshake deadline of the stcp / sudp visitor ---------- *)
+(* client/visitor/stcp.go handleConn, sudp.go getNewVisitorConn: SetReadDeadline(now + 10 s) guards the wait for
+   NewVisitorConnResp and is cleared (SetReadDeadline(time.Time{})) before the stream is joined / handed out.
+   Events in source order; a deferred call runs when the function returns, i.e. after the join. *)
+Inductive hs_ev := HArm | HClear | HDeferArm | HDeferClear | HReadResp | HJoin.
+
+Definition hs_ev_eqb (a b : hs_ev) : bool :=
+  match a, b with
+  | HArm, HArm | HClear, HClear | HDeferArm, HDeferArm | HDeferClear, HDeferClear | HReadResp, HReadResp | HJoin, HJoin => true
+  | _, _ => false
+  end.
+
+(* is the deadline armed when [target] is reached?  None: the target is never reached *)
+Fixpoint hs_armed_at (target : hs_ev) (armed : bool) (evs : list hs_ev) : option bool :=
+  match evs with
+  | [] => None
+  | e :: r =>
+      if hs_ev_eqb e target then Some armed
+      else hs_armed_at target (match e with HArm => true | HClear => false | _ => armed end) r
+  end.
+
+(* a read on the admitted stream at age [t] (ms), the handshake deadline being [d]: it fails iff the deadline is
+   still armed and has passed *)
+Definition stream_read_ok (armed : bool) (d t : Z) : bool := negb armed || (t <? d).
